@@ -197,3 +197,85 @@ class Gen:
         if r < 0.96 and self.uses_global:
             return [S("assign", name="g", op="=", e=self.val(1))]
         return [S("sink", e=self.val(1))]
+
+
+class AliasGen:
+    """Second fixed family: a local initialised from another variable before a loop (`int al = x;`), nested or sequential
+    conditions one on the alias and one on the source, and a modification of the source (or the alias) before, between or
+    after the conditions in the body of a for / while / do-while loop (or no loop) -- the 'followVar' substitution of
+    isSameExpression / isOppositeCond must see modifications that reach the conditions through the back edge."""
+
+    PARAMS = [
+        [("unsigned char", "a", list(range(0, 256, 5)) + [1, 2, 3, 4, 254, 255]), ("int", "p", list(range(-8, 16)))],
+        [("signed char", "s", list(range(-128, 128, 3)) + [-1, 1, 2]), ("unsigned char", "b", list(range(0, 12)) + [100, 255])],
+    ]
+
+    def __init__(self, rng):
+        self.rng = rng
+
+    def function(self, name):
+        rng = self.rng
+        params = rng.choice(self.PARAMS)
+        first = params[0][1]
+        second = bin_("&", var("p"), num(7)) if params[1][1] == "p" else var("b")
+        body = []
+        # the source: the parameter itself or a local computed from it
+        if rng.random() < 0.5:
+            src = first
+        else:
+            src = "x"
+            init = rng.choice([var(first), bin_("&", var(first), num(rng.choice([3, 7, 15]))), bin_("%", var(first), num(rng.choice([3, 4, 8]))),
+                               bin_("-", var(first), num(rng.choice([1, 2, 100])))])
+            body.append(S("decl", type="int", name="x", e=init))
+        body.append(S("decl", type="int", name="al", e=var(src) if rng.random() < 0.85 else bin_("+", var(src), num(0))))
+        body.append(S("decl", type="int", name="r", e=num(0)))
+        k = rng.choice([0, 0, 1, 2, 3, 5])
+        op = rng.choice(CMPS)
+        v1, v2 = ("al", src) if rng.random() < 0.6 else (src, "al")
+        c1 = bin_(op, var(v1), num(k))
+        rel = rng.random()
+        if rel < 0.4:
+            c2 = bin_(NEGATE[op], var(v2), num(k))                 # opposite
+        elif rel < 0.65:
+            c2 = bin_(op, var(v2), num(k))                         # identical
+        elif rel < 0.8:
+            c2 = bin_(MIRROR[NEGATE[op]], num(k), var(v2))
+        else:
+            c2 = bin_(rng.choice(CMPS), var(v2), num(k + rng.choice([-1, 0, 1])))
+        hit = [S("assign", name="r", op="+=", e=num(1))] if rng.random() < 0.7 else [S("sink", e=var("r"))]
+        if rng.random() < 0.7:
+            conds = [S("if", c=c1, then=[S("if", c=c2, then=hit, els=None)], els=None)]
+        elif rng.random() < 0.5:
+            conds = [S("if", c=c1, then=[S("sink", e=num(1))], els=None), S("if", c=c2, then=hit, els=None)]
+        else:
+            conds = [S("if", c=bin_("&&", c1, c2), then=hit, els=None)]
+        target = src if rng.random() < 0.8 else "al"
+        mod = rng.choice([S("incdec", name=target, op="++"), S("incdec", name=target, op="--"),
+                          S("assign", name=target, op="+=", e=num(rng.choice([1, 2, 3]))),
+                          S("assign", name=target, op="=", e=second), S("assign", name=target, op="=", e=num(rng.choice([0, 1, 5])))])
+        where = rng.random()
+        if where < 0.6:
+            inner = conds + [mod]                                  # after the conditions: reaches them through the back edge
+        elif where < 0.75 and conds[0].kind == "if" and len(conds) == 1 and conds[0].then and conds[0].then[0].kind == "if":
+            conds[0].then.insert(0, mod)                           # between the outer and the inner condition
+            inner = conds
+        elif where < 0.9:
+            inner = [mod] + conds
+        else:
+            inner = conds                                          # no modification at all
+        if rng.random() < 0.3:
+            inner.append(S("sink", e=var("al")))
+        loop = rng.choice(["dowhile", "dowhile", "while", "for", "none"])
+        n = rng.choice([2, 3, 4])
+        if loop == "for":
+            body.append(S("for", var="i", lo=0, c=bin_("<", var("i"), num(n)), body=inner))
+        elif loop == "while":
+            body.append(S("decl", type="int", name="i", e=num(0)))
+            body.append(S("while", c=bin_("<", var("i"), num(n)), body=inner + [S("incdec", name="i", op="++")]))
+        elif loop == "dowhile":
+            body.append(S("decl", type="int", name="i", e=num(0)))
+            body.append(S("dowhile", c=bin_("<", var("i"), num(n)), body=inner + [S("incdec", name="i", op="++")]))
+        else:
+            body += inner
+        body.append(S("return", e=var("r")))
+        return Func(name, params, body)
